@@ -404,6 +404,10 @@ BgChecks ==
            /\ Cardinality({n \in OpNames(Post) : OpOf(Post, n).inv = <<"BG">> /\ OpOf(Post, n).queue = o.queue /\ QueuedAt(Post, n) # {}}) <= q.max_bg
            /\ Accepted /\ HasTask(Post, CompletedTaskId(c)) /\ TaskOf(Post, CompletedTaskId(c)).stage = "C",
       "C07:background-run-malformed-unbounded-or-delaying-client">>,
+    <<\A o \in Ops(Post) : (o.inv = <<"BG">> /\ HasTask(Post, o.task) /\ Live(TaskOf(Post, o.task))) => TaskOf(Post, o.task).dnc,
+      "C07:background-run-is-cacheable">>,
+    <<\A id \in bg : asks # {} => TaskOf(Post, id).timeout = Isc[CHOOSE i \in asks : TRUE].to /\ TaskOf(Post, id).exp_dur = Isc[CHOOSE i \in asks : TRUE].exp,
+      "C07:background-run-ignores-learners-timeout">>,
     <<(asks # {} /\ bg = {}) =>
         \E i \in DOMAIN Isc : Isc[i].k = "lrn_abandoned" /\ Isc[i].lrn = Isc[CHOOSE j \in asks : TRUE].next,
       "C07:declined-background-learner-not-abandoned">>
